@@ -501,9 +501,102 @@ def run_traces(hbin, seed, n, producer=None):
     return bad, summary, hist
 
 
+def run_opsdir(hbin, stride=1):
+    """directed stream (harness/src/ext_opsdir.rs): wsh scripts with a CHECKMULTISIG on a path that not every
+    satisfaction takes, all asset subsets (<= 5 keys), both satisfier modes; every returned satisfaction is
+    executed on the extracted exec_tr (driver_ext) and the measured executed-opcode count is compared with the
+    library's static_ops + max_exec_op_count. Returns (undershoots with script/assets/witness, stats)."""
+    p = vlib.sh([hbin, "opsdir", str(stride)], timeout=1200)
+    if p.returncode != 0 or "DONE opsdir" not in p.stdout:
+        raise RuntimeError("opsdir engine failed: " + (p.stderr or p.stdout)[-2000:])
+    cases, runs, rejected, cur = {}, {}, [], None
+    nruns = collections.Counter()
+    for line in p.stdout.splitlines():
+        if line.startswith("CASE "):
+            cur = line.split()[1]
+            cases[cur] = {"id": cur}
+        elif line.startswith("DESC ") and cur:
+            cases[cur]["desc"] = line[5:]
+        elif line.startswith("OPSDIR ") and cur:
+            m = re.match(r"OPSDIR shape=(\S+) keys=(\d+) text=(.*)$", line)
+            cases[cur].update(shape=m.group(1), nkeys=int(m.group(2)), script=m.group(3))
+        elif line.startswith("MS ") and cur:
+            cases[cur]["ms"] = line[3:]
+        elif line.startswith("SCRIPT ") and cur:
+            cases[cur]["script_hex"] = line[7:]
+        elif line.startswith("TX ") and cur:
+            cases[cur]["tx"] = line[3:]
+        elif line.startswith("RUN ") and cur:
+            t = line.split()
+            nruns[t[4]] += 1
+            if t[4] == "OK":
+                n = int(t[5])
+                runs[(cur, t[1], t[2], t[3])] = t[6:6 + n]
+        elif line.startswith("X"):
+            rejected.append(line)
+    env = dict(os.environ, VERIF_OPS_LINES="1")
+    import subprocess
+    d = subprocess.run([DRIVER_EXT], input=p.stdout, stdout=subprocess.PIPE, stderr=subprocess.PIPE, universal_newlines=True, env=env, timeout=1200)
+    if d.returncode != 0:
+        raise RuntimeError("driver_ext failed on the opsdir stream: " + d.stderr[-1500:])
+    summary, bad, measured = {}, [], 0
+    ratio, worst, slack = (0, 1), None, collections.Counter()
+    scripts_measured, shapes = set(), collections.Counter()
+    for line in d.stdout.splitlines():
+        if line.startswith("OPS "):
+            f = dict(re.findall(r"(\w+)=(\S+)", line))
+            meas, ann = int(f["measured"]), int(f["static_ops"]) + int(f["max_exec_op_count"])
+            measured += 1
+            c = cases[f["case"]]
+            if c["script"] not in scripts_measured:
+                scripts_measured.add(c["script"])
+                shapes[c["shape"]] += 1
+            slack["0" if ann == meas else "1-2" if 0 < ann - meas <= 2 else "3-9" if 0 < ann - meas <= 9 else "10+" if ann > meas else "negative"] += 1
+            if meas * ratio[1] > ratio[0] * max(ann, 1):
+                ratio, worst = (meas, max(ann, 1)), {"script": c["script"], "mode": f["mode"], "keymask": int(f["keymask"]), "measured": meas, "announced": ann}
+            if meas > ann:
+                wit = runs.get((f["case"], f["mode"], f["keymask"], f["premask"]), [])
+                bad.append({"script": c["script"], "shape": c["shape"], "ms": c["ms"], "desc": c["desc"], "script_hex": c["script_hex"],
+                            "tx_version_locktime_sequence": c.get("tx"), "mode": f["mode"], "keymask": int(f["keymask"]), "premask": int(f["premask"]),
+                            "keys_able_to_sign": [i for i in range(8) if int(f["keymask"]) >> i & 1],
+                            "witness_items_hex": wit[:-1], "measured": meas, "static_ops": int(f["static_ops"]),
+                            "max_exec_op_count": int(f["max_exec_op_count"]), "announced": ann})
+        elif line.startswith("BAD C09 what=no-figure"):
+            f = dict(re.findall(r"(\w+)=(\S+)", line.split(" ms=")[0]))
+            c = cases[f["case"]]
+            wit = runs.get((f["case"], f["mode"], f["keymask"], f["premask"]), [])
+            bad.append({"script": c["script"], "shape": c["shape"], "ms": c["ms"], "desc": c["desc"], "script_hex": c["script_hex"], "mode": f["mode"],
+                        "keymask": int(f["keymask"]), "premask": int(f["premask"]), "witness_items_hex": wit[:-1], "measured": int(f["ops"]),
+                        "static_ops": None, "max_exec_op_count": None, "announced": None})
+        elif line.startswith("SUMMARY"):
+            summary = {k: int(v) for k, v in re.findall(r"(\w+)=(\d+)", line)}
+    if not summary:
+        raise RuntimeError("driver_ext produced no summary on the opsdir stream")
+    stats = {"scripts_enumerated": len({c.get("script") for c in cases.values()}) + len(rejected), "scripts_accepted": len({c.get("script") for c in cases.values()}),
+             "scripts_rejected_by_library": len(rejected), "cases_with_lock_environments": len(cases), "scripts_measured": len(scripts_measured),
+             "satisfier_runs": dict(nruns), "satisfactions_measured": measured, "driver_summary": summary,
+             "max_measured_over_announced": "%d/%d = %.3f" % (ratio[0], ratio[1], ratio[0] / ratio[1]), "max_ratio_case": worst,
+             "slack_histogram": dict(slack), "shapes": dict(shapes), "exhaustive_key_subsets": sum(1 for c in cases.values() if c.get("nkeys", 9) <= 5),
+             "sampled_key_subsets": sum(1 for c in cases.values() if c.get("nkeys", 9) > 5)}
+    return bad, stats
+
+
+
 def run(rep, tier, seed, replay):
     hbin = vlib.build_harness()
     ok, thms = vlib.proof_gates(rep, "C09")
+    if ok:
+        # extension round 2: statements about the op count of satisfier-produced witnesses (traced Theorem A)
+        t2, b2, pr2, _ = vlib.check_property_file("C09OpsTrace")
+        if pr2:
+            rep.violation("property-file", "; ".join(pr2),
+                          {"property": "C09", "broken_tie": "Properties/C09OpsTrace.v", "problems": pr2}, found_input=False)
+            ok = False
+        else:
+            thms = thms + t2
+            rep.coverage["theorems"] = thms
+            rep.coverage["print_assumptions"] = list(rep.coverage.get("print_assumptions", [])) + \
+                [("closed" if b["closed"] else ",".join(b["axioms"])) for b in b2]
     nr, nt, nd = sizes(tier)
     only = None
     n_tr_replay = None
@@ -729,6 +822,40 @@ def run(rep, tier, seed, replay):
     st["traces/executed"] = tsum.get("traced", 0)
     st["compared"] += 2 * tsum.get("traced", 0)
 
+    # ---- directed op-count stage: CHECKMULTISIG on a path that not every satisfaction takes (outside ops_covered)
+    obad, ostats = run_opsdir(hbin)
+    st["opsdir/satisfactions-measured"] = ostats["satisfactions_measured"]
+    st["compared"] += ostats["satisfactions_measured"]
+    if ostats["scripts_measured"] < 200 or ostats["driver_summary"].get("rejected", 0) or ostats["satisfier_runs"].get("PANIC", 0):
+        rep.violation("corpus:opsdir", "the directed op-count stream lost coverage: %d scripts measured (>= 200 expected), %d produced satisfactions rejected by the Script semantics, %d satisfier panics" % (
+            ostats["scripts_measured"], ostats["driver_summary"].get("rejected", 0), ostats["satisfier_runs"].get("PANIC", 0)),
+            {"property": "C09", "engine": "opsdir | driver_ext", "stats": ostats, "broken_tie": "opsdir engine corpus"}, False)
+    # one report per script: the satisfaction with the largest overshoot
+    oworst = {}
+    for b_ in obad:
+        k = b_["script"]
+        if k not in oworst or (b_["measured"] - (b_["announced"] or 0)) > (oworst[k]["measured"] - (oworst[k]["announced"] or 0)):
+            oworst[k] = b_
+    olist = sorted(oworst.values(), key=lambda x: (-(x["measured"] - (x["announced"] or 0)), x["script"]))[:40]
+    oattr = [{"what": "opcode count", "field": 5, "ctx": "segwitv0", "ms": b_["ms"], "figure": b_["announced"], "measured": b_["measured"], "shape": None,
+              "input": dict(b_, property="C09", engine="opsdir | driver_ext", engine_args=["opsdir", 1], quantity="opcode count", undershooting_scripts=len(oworst),
+                            undershooting_satisfactions=len(obad), failed_clause="executed-opcode count measured on the execution trace <= static_ops + max_exec_op_count")} for b_ in olist]
+    try:
+        okeyed = [(a, comps, masks) for a, comps, masks in attribute(oattr)]
+    except RuntimeError:
+        okeyed = []
+    if len(okeyed) < len(oattr):
+        okeyed = [(a, ["undershoot:opcode-count:unattributed"], None) for a in oattr]
+    for a, comps, masks in okeyed:
+        i_ = a["input"]
+        for key in comps:
+            before = len(rep.violations)
+            # own key: the random sat stream may report the same defect under undershoot:opcode-count:* first
+            rep.violation(key.replace("undershoot:opcode-count:", "undershoot:opcode-count:directed-multisig:"), "executed-opcode count %s > static_ops %s + max_exec_op_count %s on wsh(%s) [%s, keys able to sign %s, premask %s] witness %s" % (
+                i_["measured"], i_["static_ops"], i_["max_exec_op_count"], i_["script"], i_["mode"], i_.get("keys_able_to_sign"), i_["premask"], ",".join(i_["witness_items_hex"])[:400]),
+                dict(i_, repairs_that_cover=masks), True)
+            found_real = found_real or len(rep.violations) > before
+
     # on-break protocol: a broken tie with no failing input found by this run's oracle => widen the search once
     if tie_breaks and not found_real:
         p2 = vlib.sh([hbin, "ext", str(seed + 1000003), "0", str(nt * 2), str(nd * 3)], timeout=3000)
@@ -789,5 +916,8 @@ def run(rep, tier, seed, replay):
         "execution_traces": {"summary": tsum, "histogram": thist},
         "tie_checked_in_coq": tie_ok,
     })
+    rep.coverage["directed_opcount_stream"] = ostats
+    rep.coverage["checker_cmd"] += "; verif-harness opsdir 1 | VERIF_OPS_LINES=1 ocaml/driver_ext"
+    rep.coverage["rule"] += "; O: directed op-count stream (harness/src/ext_opsdir.rs): wsh scripts with multi/sortedmulti below or_i/or_d/or_b/andor/thresh/j:/and_v/or_c, all key subsets (<= 5 keys) or all/none/30 seeded, preimage on/off, lock environments none / met, both satisfier modes"
     rep.assumptions = ["signatures are real and ground to the longest low-S encoding; sizes are measured on raw bytes",
                        "Ms/Sat.v models the satisfier (C01 tie); placeholders have the sizes of util.rs ItemSize"]
